@@ -15,6 +15,9 @@ extstrip = None
 class LinkEntry(GopherEntry):
     def __init__(self, selector: str, config: configparser.ConfigParser):
         super().__init__(selector, config)
+        # Unset until a Numb= line is seen, so that merging this entry into an
+        # existing one only overrides the number when the link file gives one.
+        self.num = None
         self.needsmerge = False
         self.needsabspath = False
 
